@@ -34,6 +34,7 @@ import io
 import itertools
 import math
 import numbers
+import operator
 import warnings
 from dataclasses import dataclass
 from typing import Any
@@ -2605,6 +2606,10 @@ class Tree:
         Call into the fast but limited C implementation of the newick conversion.
         """
         ts = self.tree_sequence
+        # The buffer size below must be computed with Python integers: a numpy
+        # scalar (e.g. np.uint8(17)) would make the arithmetic wrap around in
+        # its own narrow type.
+        precision = operator.index(precision)
         # Labels are node IDs (or ID + 1 for the legacy labels).
         max_label_size = len(str(ts.num_nodes))
         # A branch below root is never longer than time(root) - min(node time),
